@@ -178,6 +178,8 @@ func init() {
 	methods["Coin.Validate"] = fnSpec{L: "(!validCoin %1.denom %1.amt)", T: "Err", Arity: 1}
 	methods["Coin.IsLT"] = fnSpec{L: "decide (%1.amt < %2.amt)", T: "Bool", Arity: 2, Args: []LT{"Coin", "Coin"},
 		Note: "Coin.IsLT panics on different denominations: both coins are in the selling denomination at the call site"}
+	methods["Coin.IsGTE"] = fnSpec{L: "(decide (%1.denom = %2.denom) && decide (%1.amt ≥ %2.amt))", T: "Bool", Arity: 2, Args: []LT{"Coin", "Coin"},
+		Note: "Coin.IsGTE panics on different denominations: translated as `false` (an invariant that panics counts as broken)"}
 	methods["Coin.IsPositive"] = fnSpec{L: "decide (%1.amt > 0)", T: "Bool", Arity: 1}
 	methods["Coin.IsZero"] = fnSpec{L: "decide (%1.amt = 0)", T: "Bool", Arity: 1}
 	methods["Coin.Sub"] = fnSpec{L: "(Coin.mk %1.denom (%1.amt - %2.amt))", T: "Coin", Arity: 2, Args: []LT{"Coin", "Coin"},
